@@ -107,6 +107,13 @@ Fixpoint zero_val (t : gty) : val :=
   | TRawMessage => VRaw false []
   end.
 
+(* struct.go pointersTo: one pointer codec per level of indirection *)
+Fixpoint pointers_to (t : gty) (c : codec) : codec :=
+  match t with
+  | TPtr t' => CPtr t' (pointers_to t' c)
+  | _ => c
+  end.
+
 (* codecOf / structCodecOf / sliceCodecOf / mapCodecOf / pointerCodecOf *)
 Fixpoint codec_of (t : gty) : codec :=
   match t with
@@ -133,9 +140,9 @@ Fixpoint codec_of (t : gty) : codec :=
                       let fl := (if tag_repeated tg then proto_repeated else 0) + (if tag_zigzag tg then proto_zigzag else 0) in
                       let forced :=
                         if tag_wire tg =? proto_fixed32 then
-                          match base_ty ft with TUint32 => Some CFixed32 | TFloat32 => Some CFloat32 | _ => None end
+                          match base_ty ft with TUint32 => Some (pointers_to ft CFixed32) | TFloat32 => Some (pointers_to ft CFloat32) | _ => None end
                         else if tag_wire tg =? proto_fixed64 then
-                          match base_ty ft with TUint64 => Some CFixed64 | TFloat64 => Some CFloat64 | _ => None end
+                          match base_ty ft with TUint64 => Some (pointers_to ft CFixed64) | TFloat64 => Some (pointers_to ft CFloat64) | _ => None end
                         else None in
                       (w16 (tag_number tg), fl, forced)
                   end in
@@ -185,9 +192,9 @@ Definition f64_signbit (bits : Z) : bool := 9223372036854775808 <=? bits.
 (* ---------- size functions ---------- *)
 Fixpoint size_of (c : codec) (ov : option val) (flags : Z) {struct c} : Z :=
   match c, ov with
-  | CBool, _ =>
-      (* p != nil && *p || flags.has(wantzero)   -- Go precedence: (p != nil && *p) || wantzero *)
-      if (match ov with Some (VBool true) => true | _ => false end) || has flags proto_wantzero then 1 else 0
+  | CBool, Some (VBool x) =>
+      (* p is non-nil and (the bool is true or flags.has(wantzero)) *)
+      if x || has flags proto_wantzero then 1 else 0
   | (CInt | CInt32 | CInt64), Some (VInt v) =>
       if negb (v =? 0) || has flags proto_wantzero then proto_sizeOfVarint (proto_flags_uint64 flags v) else 0
   | (CUint | CUint32 | CUint64), Some (VInt v) =>
@@ -234,9 +241,10 @@ Fixpoint size_of (c : codec) (ov : option val) (flags : Z) {struct c} : Z :=
       let n := fold_left (fun n kv =>
                    let keySize := size_of kc (Some (fst kv)) proto_wantzero in
                    let valSize := size_of vc (Some (snd kv)) proto_wantzero in
-                   let n := if keySize >? 0 then n + keyTagSize + keySize + (if negb (Z.land kf proto_embedded =? 0) then proto_sizeOfVarint keySize else 0) else n in
-                   let n := if valSize >? 0 then n + valTagSize + valSize + (if negb (Z.land vf proto_embedded =? 0) then proto_sizeOfVarint valSize else 0) else n in
-                   n + mapTagSize + proto_sizeOfVarint (keySize + valSize)) es 0 in
+                   let elemSize := 0 in
+                   let elemSize := if keySize >? 0 then elemSize + keyTagSize + keySize + (if negb (Z.land kf proto_embedded =? 0) then proto_sizeOfVarint keySize else 0) else elemSize in
+                   let elemSize := if valSize >? 0 then elemSize + valTagSize + valSize + (if negb (Z.land vf proto_embedded =? 0) then proto_sizeOfVarint valSize else 0) else elemSize in
+                   n + mapTagSize + proto_sizeOfVarint elemSize + elemSize) es 0 in
       if n =? 0 then mapTagSize + proto_zeroSize else n
   | _, _ => 0          (* p == nil, or a value of the wrong shape *)
   end.
@@ -274,9 +282,9 @@ Definition encode_varlen_bytes (b : bytes) (s : bytes) : eres :=
 
 Fixpoint encode (c : codec) (b : bytes) (ov : option val) (flags : Z) {struct c} : eres :=
   match c, ov with
-  | CBool, _ =>
-      if (match ov with Some (VBool true) => true | _ => false end) || has flags proto_wantzero then
-        if len b =? 0 then ret 0 (Some proto_ErrShortBuffer) b else ret 1 None (upd b 0 1)
+  | CBool, Some (VBool x) =>
+      if x || has flags proto_wantzero then
+        if len b =? 0 then ret 0 (Some proto_ErrShortBuffer) b else ret 1 None (upd b 0 (if x then 1 else 0))
       else ret 0 None b
   | (CInt | CInt32 | CInt64), Some (VInt v) =>
       if negb (v =? 0) || has flags proto_wantzero then lift3 (proto_encodeVarint b (proto_flags_uint64 flags v)) else ret 0 None b
@@ -496,7 +504,7 @@ Fixpoint decode (fuel : nat) (c : codec) (b : bytes) (old : val) (flags : Z) {st
       if has flags proto_toplevel then dret (len b) None (VRaw true b)
       else
         let '(v, n, err) := proto_decodeVarlen b in
-        match err with Some _ => dret n err old | None => dret (n + len v) None (VRaw true v) end
+        match err with Some _ => dret n err old | None => dret n None (VRaw true v) end
   | CSlice _ _ _ et c' =>
       (* one element is decoded into a fresh zeroed slot and appended *)
       let es := match old with VSlice es => es | _ => [] end in
